@@ -468,7 +468,8 @@ With agent-refine's theorems merged (`Build.push_takeRest`, `Props.C01.runRows_r
   rows     `rawOK` (raw key/value call streams alternate; vacuous without `mapRaw`), `SValOK` (an iN/uN/f32/f64 call
            carries a value of that width)
   Ext      `ExtOK` (what the external chrono parsers return fits the column's storage)
-  size     `ViewSmall` (bytes-view buffers below 4 GiB in the final state) -/
+(the former size assumption `ViewSmall` is now derived: the view builders refuse lengths / offsets beyond `i32::MAX`, the
+state invariant `WFB` carries the buffer bound — `Build.WFB_small`) -/
 
 /-- **C03.**  Every array `to_marrow` returns is a well-formed array of its field (`Spec.WF`: data type equal to the
 field's including child names / nullability / metadata / parameters; bitmap present iff nullable with exactly ⌈len/8⌉
@@ -480,7 +481,6 @@ theorem C03_wf (ext : Ext) (fields : List Field) (rows : List SVal) (arrs : List
     (hsafe : ∀ root0, newRoot fields = .ok root0 → Safe root0)
     (hext : Lemmas.C03.ExtOK ext)
     (hraw : ∀ x ∈ rows, Build.rawOK x = true) (hrows : ∀ x ∈ rows, Lemmas.C03.SValOK x)
-    (hsmall : ∀ root, runRows ext fields rows = .ok root → Lemmas.C03.ViewSmall root)
     (h : toMarrow ext fields rows = .ok arrs) :
     arrs.length = fields.length ∧
     ∀ (j : Nat) (f : Field) (a : Arr), fields[j]? = some f → arrs[j]? = some a →
@@ -496,7 +496,7 @@ theorem C03_wf (ext : Ext) (fields : List Field) (rows : List SVal) (arrs : List
   obtain ⟨hw, hlen, _, hcols⟩ := Props.C01.runRows_rows ext fields rows root0 root h0 (hsafe root0 h0) hraw hrun
   have hfacts := root_facts ext fields rows root hmap hschema (Build.push_takeRest ext) hw
     (Lemmas.C03.WFB_StrictDict root hw) hrun
-  have hx := Lemmas.C03.runRows_WFX ext hext fields rows root hrows hrun (hsmall root hrun)
+  have hx := Lemmas.C03.runRows_WFX ext hext fields rows root hrows hrun (Build.WFB_small root hw)
   cases root with
   | struct p len v fs cached next seen =>
     simp only [buildArrays, bind, Except.bind] at hba
@@ -607,7 +607,7 @@ example : ∀ arrs, toMarrow {} exFields exRows = .ok arrs →
     arrs.length = exFields.length ∧ ∀ (j : Nat) (f : Field) (a : Arr), exFields[j]? = some f →
       arrs[j]? = some a → WF f a = true ∧ (decodeAll a).length = exRows.length := by
   intro arrs h
-  refine C03_wf {} exFields exRows arrs ?_ ?_ ?_ ?_ ?_ ?_ ?_ h
+  refine C03_wf {} exFields exRows arrs ?_ ?_ ?_ ?_ ?_ ?_ h
   · simp [exFields, Lemmas.C03.Map2F, Lemmas.C03.Map2]
   · simp [exFields, Lemmas.C03.SchemaOKF, Lemmas.C03.SchemaOK]
   · intro root0 h0
@@ -621,7 +621,5 @@ example : ∀ arrs, toMarrow {} exFields exRows = .ok arrs →
   · decide
   · simp [exRows, Lemmas.C03.SValOK, Lemmas.C03.SFieldsOK, Lemmas.C03.SValsOK, Lemmas.C03.ScalarOK, IntTy.inRange,
       IntTy.min, IntTy.max]
-  · intro root hr; rw [exRun] at hr; cases hr
-    simp [exRoot, Lemmas.C03.ViewSmall, Lemmas.C03.ViewSmallL]
 
 end SaModel.Props.C03
